@@ -33,8 +33,6 @@ const (
 	escOk         = 'B'
 	uOk           = 'E'
 	tokenSpc      = 'G'
-	tokenColon    = 'I'
-	tokenNlColon  = 'J'
 	numDigit      = 'N'
 	numZero       = 'O'
 	strOk         = 'R'
@@ -59,8 +57,8 @@ const (
 		"jjjjjjjjjjjjjjjjjjjjjjjjjjjjjjjjv" //  0xe0
 	//   0123456789abcdef0123456789abcdef
 	tokenMap = "" +
-		".........GJ..G.................." + // 0x00
-		"G.i.u..idpuuGuucuuuuuuuuuuI.u.uu" + // 0x20
+		".........GG..G.................." + // 0x00
+		"G.i.u..idGuuGuuGuuuuuuuuuuG.u.uu" + // 0x20
 		"uuuuuuuuuuuuuuuuuuuuuuuuuuuk.muu" + // 0x40
 		".uuuuuuuuuuuuuuuuuuuuuuuuuul.nu." + // 0x60
 		"uuuuuuuuuuuuuuuuuuuuuuuuuuuuuuuu" + // 0x80
